@@ -2074,6 +2074,13 @@ read_dns(int fd, struct dnsfd *dns_fds, int tun_fd, struct query *q)
 		memcpy((struct sockaddr*)&q->from, (struct sockaddr*)&from, addrlen);
 		q->fromlen = addrlen;
 
+		/* A raw packet carries no DNS query, but the raw handlers store
+		   *q as the user's current query: do not let it keep the id of
+		   whatever query occupied this memory before, or that old query
+		   gets answered a second time when the user sends DNS traffic */
+		q->id = 0;
+		q->id2 = 0;
+
 		/* TODO do not handle raw packets here! */
 		if (raw_decode(packet, r, q, fd, dns_fds, tun_fd)) {
 			return 0;
